@@ -241,9 +241,12 @@ func ruleC15R2(c *Ctx) {
 func ruleC15R3(c *Ctx) {
 	fn := c.P.Fn("transform/ttruncate.(*truncateTransform).Transform")
 	const pfx = "transform/ttruncate.truncateTransform."
-	sets := c.callsTo(fn, anchorPred(aLocSet))
-	cleans := c.callsTo(fn, anchorPred(aCleanUTF8))
-	ows := c.callsTo(fn, anchorPred("util.OverwriteNTruncate"))
+	calleeIs := func(p FnPred) func(ssa.CallInstruction) bool {
+		return func(s ssa.CallInstruction) bool { f := s.Common().StaticCallee(); return f != nil && p(f) }
+	}
+	sets := c.sitesWhereR(fn, calleeIs(anchorPred(aLocSet)))
+	cleans := c.sitesWhereR(fn, calleeIs(anchorPred(aCleanUTF8)))
+	ows := c.sitesWhereR(fn, calleeIs(anchorPred("util.OverwriteNTruncate")))
 	if len(sets) != 1 || len(cleans) != 1 || len(ows) != 1 {
 		c.bad("C15.R3", fn, "UTF-8-safe cut", fn.Pos(), fmt.Sprintf("expected one Set, CleanUTF8 and OverwriteNTruncate, found %d/%d/%d", len(sets), len(cleans), len(ows)))
 		return
@@ -265,7 +268,8 @@ func ruleC15R3(c *Ctx) {
 			return
 		}
 		for b, si := range boolEdges(bo, true) {
-			if c.onlyViaEdge(fn, set, b, si) && c.onlyViaEdge(fn, clean, b, si) {
+			sIn, cIn := c.siteInRoot(fn, set), c.siteInRoot(fn, clean)
+			if sIn != nil && cIn != nil && c.onlyViaEdge(fn, sIn, b, si) && c.onlyViaEdge(fn, cIn, b, si) {
 				okG = true
 			}
 		}
@@ -283,7 +287,7 @@ func ruleC15R3(c *Ctx) {
 			fieldOf(ow.Common().Args[2]) == pfx+"suffix" && strip(ow.Common().Args[0]) == strip(sl.X)
 	}
 	c.check(okO, "C15.R3", fn, "OverwriteNTruncate(bytes, len(cleaned), suffix)", ow.Pos(), "the suffix is pasted at the cleaned end of the same bytes", "the suffix is not pasted at the end of the cleaned prefix (a broken UTF-8 sequence or a gap would remain)")
-	okS := mentions(set.Common().Args[2], func(v ssa.Value) bool { return v == ow.Value() })
+	okS := c.mentionsR(fn, set.Common().Args[2], func(v ssa.Value) bool { return v == ow.Value() }, 0)
 	c.check(okS, "C15.R3", fn, "the stored value is the overwritten bytes", set.Pos(), "Set(fields, StringFromBytes(overwritten))", "the field is set to something other than the truncated value")
 }
 
